@@ -298,6 +298,89 @@ func TestC09Authenticity(t *testing.T) {
 						rec.Label("harmless-envelope-reencoding:" + kindClass(d.kind))
 					}
 				}
+				// ---- a crowded block: the block's own generated transactions (valid and invalid ones of many signers), with
+				// badly signed derivatives and junk (oversized, garbage, empty byte strings) inserted at generated positions.
+				// Whatever surrounds them, transactions whose signature does not verify change nothing at all: the working
+				// state and every other transaction's result equal those of the same block without the insertions.
+				var bad [][]byte
+				var badKinds []string
+				for _, d := range ders {
+					if v := chain.Judge(sim.W, base, d.raw); !v.EnvelopeOK || !v.SigOK {
+						bad = append(bad, d.raw)
+						badKinds = append(badKinds, kindClass(d.kind))
+					}
+				}
+				if len(bad) > 0 && rapid.IntRange(0, 2).Draw(t, "crowd") > 0 {
+					res0, w0, err := chain.Probe(r, b, "crowd-base", b.Txs)
+					if err != nil {
+						fail("probe-panic", "executing the block's own transactions panicked: %v", err)
+					}
+					type ins struct {
+						raw  []byte
+						kind string
+					}
+					var extra []ins
+					for i, n := 0, rapid.IntRange(1, 3).Draw(t, "crowdBad"); i < n; i++ {
+						k := rapid.IntRange(0, len(bad)-1).Draw(t, "crowdBadIdx")
+						extra = append(extra, ins{bad[k], "bad-signature:" + badKinds[k]})
+					}
+					for i, n := 0, rapid.IntRange(0, 2).Draw(t, "crowdJunk"); i < n; i++ {
+						switch rapid.IntRange(0, 3).Draw(t, "junkKind") {
+						case 0:
+							extra = append(extra, ins{bytes.Repeat([]byte{0x5a}, int(sim.W.Spec.MaxTxSize)+1+rapid.IntRange(0, 64).Draw(t, "oversizeBy")), "oversized-garbage"})
+						case 1:
+							// an oversized envelope that is well-formed CBOR: f with a huge trailing pad inside a byte string
+							extra = append(extra, ins{envelope(append(append([]byte{}, blob...), make([]byte, int(sim.W.Spec.MaxTxSize))...), a.Signer.Public(), goodSig), "oversized-envelope"})
+						case 2:
+							extra = append(extra, ins{[]byte{0xa0}, "garbage"})
+						default:
+							extra = append(extra, ins{[]byte{}, "empty"})
+						}
+					}
+					// positions: each insertion goes before the pos-th own transaction (pos == len: at the end)
+					crowded := make([][]byte, 0, len(b.Txs)+len(extra))
+					own := make([]int, 0, len(b.Txs)) // index of each own transaction in the crowded block
+					at := make([][]ins, len(b.Txs)+1)
+					for _, e := range extra {
+						pos := rapid.IntRange(0, len(b.Txs)).Draw(t, "crowdPos")
+						at[pos] = append(at[pos], e)
+					}
+					var layout []string
+					for i := 0; i <= len(b.Txs); i++ {
+						for _, e := range at[i] {
+							crowded = append(crowded, e.raw)
+							layout = append(layout, e.kind)
+						}
+						if i < len(b.Txs) {
+							own = append(own, len(crowded))
+							crowded = append(crowded, b.Txs[i])
+							layout = append(layout, "own")
+						}
+					}
+					res1, w1, err := chain.Probe(r, b, "crowd", crowded)
+					if err != nil {
+						fail("probe-panic", "executing the crowded block %v panicked: %v", layout, err)
+					}
+					if d := chain.Diff(w0, w1); len(d) != 0 {
+						fail("unauthentic-tx-took-effect", "badly signed / junk byte strings inserted into a block changed its outcome: layout %v, %d keys differ:%s", layout, len(d), chain.FmtKeys(d))
+					}
+					for i, at := range own {
+						if i < len(res0) && at < len(res1) && (res0[i].Code != res1[at].Code || res0[i].Codespace != res1[at].Codespace || !bytes.Equal(res0[i].Data, res1[at].Data)) {
+							fail("unauthentic-tx-took-effect", "inserted badly signed / junk byte strings changed the result of another transaction (own tx %d: %s/%d -> %s/%d): layout %v", i, res0[i].Codespace, res0[i].Code, res1[at].Codespace, res1[at].Code, layout)
+						}
+					}
+					for i, l := range layout {
+						if l != "own" && i < len(res1) && res1[i].Code == 0 {
+							fail("unauthentic-tx-took-effect", "inserted %s reported success in a crowded block: layout %v", l, layout)
+						}
+					}
+					nontrivial++
+					rec.Label("crowded-block")
+					rec.LabelN("crowded-block:own-transactions", uint64(len(b.Txs)))
+					for _, e := range extra {
+						rec.Label("crowded-insert:" + e.kind)
+					}
+				}
 			}
 			view.Close()
 			if include != nil {
